@@ -117,6 +117,29 @@ func VerifAux(name string) (st VerifAuxState) {
 	return
 }
 
+// VerifPath tells which way Aux.Call would take for a call whose cache key is
+// key: "default" (single-method fast path), "hit" (effective method cached) or
+// "miss". Cheap: used before every call.
+func VerifPath(name, key string) string {
+	fi := slip.FindFunc(name)
+	if fi == nil {
+		return "?"
+	}
+	aux, _ := fi.Aux.(*Aux)
+	if aux == nil {
+		return "?"
+	}
+	aux.moo.Lock()
+	defer aux.moo.Unlock()
+	if aux.defaultCaller != nil {
+		return "default"
+	}
+	if aux.cache[key] != nil {
+		return "hit"
+	}
+	return "miss"
+}
+
 // String renders the dump deterministically (sorted keys).
 func (st VerifAuxState) String() string {
 	if !st.Found {
